@@ -59,6 +59,21 @@ theorem merge_comm_needs_cid_unique :
   revert this
   decide
 
+/-- `hvm` is necessary for `merge_assoc`: with a value set type that merges instead of choosing (C11's
+sessions, keys, audit log) a *purge* of the attribute between two writes makes the result depend on the
+grouping — delivered directly, the oldest value is merged back into the newest; delivered through the
+purge, it is gone.  (No server code path purges such an attribute; revocations are C11's subject.) -/
+theorem merge_assoc_needs_default_valueset_merge :
+    let vm : Nat → Nat → Option Nat := fun n o => some (n + o)
+    let x : St := .live ⟨⟨1, 1⟩, [(0, ⟨1, 1⟩)], [(0, 1)]⟩
+    let y : St := .live ⟨⟨1, 1⟩, [(0, ⟨2, 1⟩)], []⟩
+    let z : St := .live ⟨⟨1, 1⟩, [(0, ⟨3, 1⟩)], [(0, 4)]⟩
+    mergeState vm (fun _ => true) (mergeState vm (fun _ => true) x y) z
+        = .live ⟨⟨1, 1⟩, [(0, ⟨3, 1⟩)], [(0, 4)]⟩
+      ∧ mergeState vm (fun _ => true) x (mergeState vm (fun _ => true) y z)
+        = .live ⟨⟨1, 1⟩, [(0, ⟨3, 1⟩)], [(0, 5)]⟩ := by
+  decide
+
 /-- A tombstone absorbs: merged with anything, on either side, the result is a tombstone, and its
 `at` is not later than the tombstone's. -/
 theorem tombstone_dominates (vm : Nat → Nat → Option Nat) (repl : Nat → Bool) (a : Cid) (s : St) :
@@ -266,6 +281,70 @@ example :
     (resolveAdd ⟨9, 2⟩ ⟨⟨1, 1⟩, [(0, ⟨1, 1⟩)], [(0, 5)]⟩ ⟨⟨2, 2⟩, [(0, ⟨2, 2⟩)], [(0, 6)]⟩).1 = true
       ∧ (resolveAdd ⟨9, 3⟩ ⟨⟨1, 1⟩, [(0, ⟨1, 1⟩)], [(0, 5)]⟩ ⟨⟨2, 2⟩, [(0, ⟨2, 2⟩)], [(0, 6)]⟩).1 = false := by
   decide
+
+/-! ## The generated operators and sides are the ones the property needs -/
+
+/-- Every regenerated comparison and side is the specified one: the later cid is taken from the left
+only if strictly later; of two tombstones the strictly earlier left one is kept; a tombstone arm keeps
+the tombstone's change state; a uuid clash is any difference of the creation cids and the later
+creation loses; the copy is made on the loser's origin only; an attribute state travels iff it is
+replicated and its timestamp lies in `(ts_min, ts_max]` of a requested origin. -/
+theorem generated_ops_are_spec :
+    (∀ l r : Cid, takeLeft cidLt l r = cidLt r l)
+    ∧ (∀ a b : Cid, tombTombPickLeft cidLt a b = cidLt a b)
+    ∧ tombLiveKeeps = .left ∧ liveTombKeeps = .right ∧ liveAtFrom = .left ∧ retainReplicated = true
+    ∧ leftOnlyArm = ⟨.left, .left⟩ ∧ rightOnlyArm = ⟨.right, .right⟩
+    ∧ (∀ a b : Cid, addConflictWhen cidLt a b = true ↔ a ≠ b)
+    ∧ (∀ a b : Cid, incomingLoses cidLt a b = cidLt b a)
+    ∧ copyOnlyAtOrigin = true
+    ∧ (∀ ts lo hi : Nat, withinRange ts lo hi = true ↔ (lo < ts ∧ ts ≤ hi))
+    ∧ rangeAbsentDefault = false ∧ rangeRequiresReplicated = true := by
+  refine ⟨fun _ _ => rfl, fun _ _ => rfl, rfl, rfl, rfl, rfl, rfl, rfl, ?_, fun _ _ => rfl, rfl, ?_, rfl, rfl⟩
+  · intro a b
+    simp only [addConflictWhen, Bool.or_eq_true]
+    constructor
+    · rintro (h | h) e
+      · subst e; rw [cidLt_irrefl] at h; cases h
+      · subst e; rw [cidLt_irrefl] at h; cases h
+    · intro hne
+      cases h1 : cidLt a b
+      · cases h2 : cidLt b a
+        · exact absurd (cidLt_connex h1 h2) hne
+        · exact Or.inr rfl
+      · exact Or.inl rfl
+  · intro ts lo hi
+    simp only [withinRange, Bool.and_eq_true, decide_eq_true_eq]
+    omega
+
+/-- The value arms, as a function of (left value present, right value present, `take_left`): the side
+that is later supplies cid and value; `repl_merge_valueset` is consulted only when both have a value,
+with the later side as `self`. -/
+theorem generated_arms_are_spec (ls rs tl : Bool) :
+    pickArm ls rs tl bothArms = some
+      (if tl then ⟨.left, if ls then (if rs then .mergeLeftNewer else .left) else .none⟩
+       else ⟨.right, if rs then (if ls then .mergeRightNewer else .right) else .none⟩) := by
+  cases ls <;> cases rs <;> cases tl <;> decide
+
+/-- What travels: exactly the replicated attribute states whose change cid lies in the requested
+window of its origin. -/
+theorem sent_iff (repl : Nat → Bool) (rg : Ranges) (a : Nat) (c : Cid) :
+    sent repl rg a c = true ↔
+      (repl a = true ∧ ∃ lo hi, lookup rg c.sUuid = some (lo, hi) ∧ lo < c.ts ∧ c.ts ≤ hi) := by
+  have hw := generated_ops_are_spec.2.2.2.2.2.2.2.2.2.2.2.1
+  simp only [sent, rangeRequiresReplicated, rangeAbsentDefault, if_true, Bool.and_eq_true]
+  constructor
+  · rintro ⟨hr, h⟩
+    refine ⟨hr, ?_⟩
+    cases hl : lookup rg c.sUuid with
+    | none => rw [hl] at h; cases h
+    | some p =>
+      obtain ⟨lo, hi⟩ := p
+      rw [hl] at h
+      exact ⟨lo, hi, rfl, (hw _ _ _).1 h⟩
+  · rintro ⟨hr, lo, hi, hl, hlo, hhi⟩
+    refine ⟨hr, ?_⟩
+    rw [hl]
+    exact (hw _ _ _).2 ⟨hlo, hhi⟩
 
 /-! ## The full statement is false of the code (D17) -/
 
